@@ -13,19 +13,62 @@ from .exec import typetag
 class CanonHdr:
     """bytes value == hdrline(lo, hi, nc) (what header_from_indices returns)."""
 
-    def __init__(self, lo, hi, nc):
+    def __init__(self, lo, hi, nc, text=False):
         self.lo, self.hi, self.nc = list(lo), list(hi), nc
+        self.text = text          # str flavour (decoded) or bytes flavour
 
     def length(self):
         return hdrlen(self.lo, self.hi, self.nc)
 
     def as_bytes_piece(self, ex, text):
-        if text:
-            raise SymRaise("TypeError", "write() argument must be str, not bytes")
+        if text != self.text:
+            raise SymRaise("TypeError", "write() argument str/bytes mismatch")
         return ("hdr", (tuple(self.lo), tuple(self.hi), self.nc), None), self.length()
 
     def __repr__(self):
         return f"CanonHdr({self.lo},{self.hi},{self.nc})"
+
+
+def _register():
+    from .exec import method
+    from .strings import SStr, IntAtom
+
+    @method("CanonHdr", "encode")
+    def ch_encode(ex, self, args, kw):
+        if not self.text:
+            raise SymRaise("AttributeError", "'bytes' object has no attribute 'encode'")
+        return CanonHdr(self.lo, self.hi, self.nc, text=False)
+
+    @method("CanonHdr", "decode")
+    def ch_decode(ex, self, args, kw):
+        if self.text:
+            raise SymRaise("AttributeError", "'str' object has no attribute 'decode'")
+        return CanonHdr(self.lo, self.hi, self.nc, text=True)
+
+    def int_nl(v):
+        """f'{n}\\n' -> n (python int or z3 Int) or None."""
+        if isinstance(v, str):
+            if v.endswith("\n") and v[:-1].isdigit():
+                return int(v[:-1])
+            return None
+        if isinstance(v, SStr) and len(v.segs) == 2 and isinstance(v.segs[0], IntAtom) and v.segs[1] == "\n":
+            return v.segs[0].term
+        return None
+
+    @method("Line", "replace")
+    def line_replace(ex, self, args, kw):
+        """header.replace(f'{a}\\n', f'{b}\\n') on a CANONICAL header line whose component count is a: the text
+        hdrline(lo,hi,a) has exactly one newline, preceded by ' ' and the digits of a (string-level lemma proved on
+        segment strings in props/parsers.py), so the result is hdrline(lo,hi,b)."""
+        if not self.text:
+            raise SymRaise("TypeError", "a bytes-like object is required, not 'str'")
+        a, b = int_nl(args[0]), int_nl(args[1])
+        if a is None or b is None:
+            raise Unsupported("replace on a header line with a pattern other than f'{int}\\n'")
+        nd = ndims(ex)
+        if ex.ctx.branch(zand(self.ok(), self.canon(), self.nc() == to_z3(a))):
+            return CanonHdr([self.lo(d) for d in range(nd)], [self.hi(d) for d in range(nd)], b, text=True)
+        raise Unsupported("replace on a header line that is not canonical or whose count differs from the pattern")
 
 
 def ndims(ex):
@@ -98,7 +141,7 @@ def line_eq(ex, a, b):
     if isinstance(a, CanonHdr) and isinstance(b, Line):
         a, b = b, a
     if isinstance(a, Line) and isinstance(b, CanonHdr):
-        if a.text:
+        if a.text != b.text:
             return False          # str == bytes
         nd = ndims(ex)
         if len(b.lo) != nd:
@@ -113,7 +156,7 @@ def line_eq(ex, a, b):
             return True
         raise Unsupported("equality of two file lines")
     if isinstance(a, CanonHdr) and isinstance(b, CanonHdr):
-        if len(a.lo) != len(b.lo):
+        if len(a.lo) != len(b.lo) or a.text != b.text:
             return False
         return zand(to_z3(a.nc) == to_z3(b.nc), *[to_z3(x) == to_z3(y) for x, y in zip(a.lo + a.hi, b.lo + b.hi)])
     raise Unsupported(f"header equality {typetag(a)} == {typetag(b)}")
@@ -135,3 +178,6 @@ HEADER_CONTRACTS = {
     UTILS + "shapes_from_header_vardims": c_shapes_from_header_vardims,
     UTILS + "header_from_indices": c_header_from_indices,
 }
+
+
+_register()
